@@ -1,0 +1,16 @@
+//go:build verif
+// +build verif
+
+package mqtt
+
+// Verification hook (build tag "verif" only): lets an in-package test harness
+// observe that the reconnect loop reached a given point. With the tag off
+// verifPoint is an empty function (verif_hook_off.go).
+
+var verifHook func(site string, owner interface{})
+
+func verifPoint(site string, owner interface{}) {
+	if h := verifHook; h != nil {
+		h(site, owner)
+	}
+}
